@@ -129,7 +129,7 @@ func nestedAlphabet(names []string, depth int, moves bool) func(x *apix.Exec, t 
 				}
 			}
 			if len(bp) > 0 {
-				ops = append(ops, op("put", bp, "a", "s"), op("put", bp, names[0], "s"), op("del", bp, "a", ""), apix.Op{K: "seqnext", P: bp})
+				ops = append(ops, op("put", bp, "a", "s"), op("put", bp, "r", "s"), op("put", bp, names[0], "s"), op("del", bp, "a", ""), apix.Op{K: "seqnext", P: bp})
 			}
 		}
 		return ops
@@ -166,4 +166,53 @@ func mk(name string, seeds []string, cs []apix.Cfg, maxOps int, lvl int, en func
 		}
 	}
 	return out
+}
+
+// lifeAlphabet: S3 — write transactions with overwrite-heavy bodies interleaved with up to `readers` read
+// transactions of different ages, rollbacks and reopenings.
+func lifeAlphabet(readers int, bodies []apix.Op, reopen []apix.Cfg, maxTx int) func(x *apix.Exec, t *hx.Track, left int) []apix.Op {
+	return func(x *apix.Exec, t *hx.Track, left int) []apix.Op {
+		if left <= 0 {
+			return nil
+		}
+		var ops []apix.Op
+		nOpen := 0
+		firstFree := -1
+		for i := 0; i < readers; i++ {
+			if x.Readers[i] != nil {
+				nOpen++
+				ops = append(ops, apix.Op{K: "closeR", N: i})
+			} else if firstFree < 0 {
+				firstFree = i
+			}
+		}
+		if firstFree >= 0 && left >= 2 {
+			ops = append(ops, apix.Op{K: "beginR", N: firstFree})
+		}
+		if x.W == nil {
+			if left >= 2 && t.NTx < maxTx {
+				ops = append(ops, beginW)
+			}
+			if nOpen == 0 && left >= 2 {
+				for i := range reopen {
+					c := reopen[i]
+					ops = append(ops, apix.Op{K: "reopen", Cfg: &c})
+				}
+			}
+			return ops
+		}
+		if left == 1 {
+			return txEnd()
+		}
+		ops = append(ops, txEnd()...)
+		if t.OpsInTx < 2 {
+			ops = append(ops, bodies...)
+		}
+		return ops
+	}
+}
+
+var lifeBodies = []apix.Op{
+	op("put", P("p"), "a", "X"), op("put", P("p"), "b", "s"), op("del", P("p"), "a", ""),
+	{K: "fill", P: P("p"), Key: "k", V: "M", N: 6}, {K: "drain", P: P("p")},
 }
